@@ -449,6 +449,23 @@ fn operands_inner(prop: &str, op: u16, sl: L, dl: L, mode: usize, ia: Ing, ib: I
             };
             let h = (r1 ^ r2.rotate_left(61)).wrapping_mul(0x9E37_79B9_7F4A_7C15_F39C_C060_5CED_C835) >> 64;
             let a = if h % 24 == 0 { named_constant_operand(sl, h >> 20) } else { a };
+            // large exponents with a base SOLVED so that the power stays inside the type: |n| log-uniform up to 2^18
+            // (one case in 40: the loop is linear in |n|), x = exp(t / n) for t uniform over +-ln(max), either sign of x.
+            // Uniform bases give Err or 0 for such exponents, so nothing about the value would be judged.
+            if h % 40 == 1 && prop != "C17" {
+                let k = 4 + ((h >> 8) % 15) as u32;
+                let n = (1i64 << k) + ((h >> 16) as i64 & ((1i64 << k) - 1));
+                let thr = mp::ln2().mul(&Big::from_u64(dl.int_bits().saturating_sub(1).max(1) as u64));
+                // t in (-thr, thr): |t| = thr * u / 2^32
+                let u = Big::from_u128((h >> 24) & 0xffff_ffff);
+                let t = thr.mul(&u).shr_floor(32);
+                let t = if (r2 >> 3) & 1 == 1 { t.neg() } else { t };
+                let x = mp::exp(&mp::div(&t, &mp::from_i64(n)));
+                let xr = mp_to_raw(sl, &x);
+                let xr = if sl.signed && (r2 >> 4) & 1 == 1 { xr.wrapping_neg() & sl.mask() } else { xr };
+                let n = if (r2 >> 5) & 1 == 1 { -n } else { n };
+                return (xr, (n as i32) as u32 as u128);
+            }
             let av = sl.val(a).abs();
             // |x| <= 1 (roughly): the loop cannot leave early by overflow, so cap |n| to bound the work
             let near_unit = av <= Big::from_u128(one).add(&Big::from_u128(one >> 8));
@@ -637,7 +654,7 @@ impl Engine for Math {
         }
     }
     fn rule(&self, prop: &str) -> String {
-        let types = "150 source->destination pairs: every signed layout of the scope as a same-type pair (I9F23; the 33 64-bit layouts I41F23..I9F55; the 97 128-bit layouts I105F23..I9F119); I9F23->I32F32 I9F23->I64F64 I32F32->I64F64 I16F48->I40F88 I9F23->I9F55 I24F40->I40F88 I9F23->I33F31 I33F31->I42F86 I24F40->I28F100; unsigned sqrt U9F23 U32F32 U64F64 U96F32 U33F31 U42F86 U32F32->U64F64; U9F23->I32F32 U32F32->I64F64 U33F31->I42F86 (sqrt, powi)";
+        let types = "246 source->destination pairs (S != D systematically: I9F23 into 64- and 128-bit destinations, 64-bit sources into 128-bit destinations at fraction widths fs, fs+8, 2fs-9, 2fs-8, 2fs-4, 2fs, the widest and the middle; more unsigned sqrt / powi pairs), among them: every signed layout of the scope as a same-type pair (I9F23; the 33 64-bit layouts I41F23..I9F55; the 97 128-bit layouts I105F23..I9F119); I9F23->I32F32 I9F23->I64F64 I32F32->I64F64 I16F48->I40F88 I9F23->I9F55 I24F40->I40F88 I9F23->I33F31 I33F31->I42F86 I24F40->I28F100; unsigned sqrt U9F23 U32F32 U64F64 U96F32 U33F31 U42F86 U32F32->U64F64; U9F23->I32F32 U32F32->I64F64 U33F31->I42F86 (sqrt, powi)";
         match prop {
             "C12" => format!("cases = (function, type pair, operands) over {}; operands over the whole source type (classes, log-uniform magnitudes, powers of two, thresholds of the result range), pow exponents, powi exponents from small/2^k+-1/i32::MIN/i32::MAX/uniform (|n| capped at 2^17 where |x| <~ 1, where the loop cannot leave early, except a few uncapped i32::MIN/MAX exponents on 32-bit sources), trig angles |x| <= 200 (tan 100). Oracle: outcome is Ok/Err/return in both profiles (no unwind), domain rules (sqrt of negative, log of non-positive, negative base with fractional exponent => Err), true result (320-bit oracle, 2^-16 guard band) above the destination maximum => Err. Non-trivial: operand magnitude outside [2^-4, 24] or an Err outcome.", types),
             "C13" => format!("cases = sqrt over {}; x log-uniform, perfect squares +-1 ulp, near 1, smallest invertible, extremes. Oracle: exact integer bracket (r-4)^2 <= X*2^F <= (r+4)^2, r >= 0, sqrt(0)=0, sqrt(1)=1; Err only for x < 0 or unrepresentable reciprocal. Non-trivial: x not in {{0, 1}}.", types),
@@ -649,7 +666,7 @@ impl Engine for Math {
         }
     }
     fn assumptions(&self, prop: &str) -> Vec<String> {
-        let mut v = vec!["source/destination pairs are a fixed list of 24 (compile-time type parameters)".to_string()];
+        let mut v = vec!["source/destination pairs are a fixed list of 246 (compile-time type parameters): every signed layout of the scope as a same-type pair, S != D sampled systematically".to_string()];
         match prop {
             "C16" => v.push("f64 libm oracle with a 2^-44 margin (times 1 + tan^2 for tan) added to every bound".into()),
             "C17" | "C12" => v.push("loop iterations counted by the cfg(substrate_fixed_verif) hook in every loop body of src/transcendental.rs".into()),
